@@ -74,6 +74,14 @@ var c20Mutations = []c20Mutation{
 		}
 		return true
 	}},
+	{"empty-pseudo-before-the-real-one", func(rng *rand.Rand, s *reqSpec) bool {
+		// a pseudo-header sent twice, first with an empty value: "seen before" must not be inferred from a non-empty value
+		i := rng.Intn(len(s.Pseudo))
+		f := s.Pseudo[i]
+		f.Value = ""
+		s.Pseudo = insertAt(s.Pseudo, i, f)
+		return true
+	}},
 	{"pseudo-after-regular", func(rng *rand.Rand, s *reqSpec) bool {
 		i := rng.Intn(len(s.Pseudo))
 		f := s.Pseudo[i]
